@@ -237,9 +237,56 @@ fn check(ctx: &Ctx) -> i32 {
         let rules: Vec<&str> = idx.iter().map(|&j| POOL[j]).collect();
         check_list(&rules, &reqs, &res, l);
     });
+    // the rule cube (vh::alpha): rules with the same option set are fusion candidates, rules whose
+    // option sets differ in one respect must stay apart. Requests: the shared URL universe with two
+    // (initiator, type) pairs per URL.
+    let cube_reqs: Vec<Req> = vh::alpha::requests(false, false).into_iter().filter(|r| (r.ty == "script" && !r.source.is_empty()) || (r.ty == "image") || r.ty == "document").collect();
+    let np = vh::alpha::CUBE_PATTERNS.len();
+    let no = vh::alpha::CUBE_OPTIONS.len();
+    ctx.bound("cube_requests", cube_reqs.len());
+    ctx.bound("cube", json!({"patterns": np, "option_sets": no}));
+    // (a) same option set: all pairs (thorough: all triples) of patterns, blocking and exception
+    let k_same: usize = ctx.tier.pick(2, 3);
+    let combos: u64 = if k_same == 2 { (np * (np - 1) / 2) as u64 } else { (np * (np - 1) * (np - 2) / 6) as u64 };
+    ctx.par_range("cube: same option set", combos * no as u64 * 2, 8, |i, l| {
+        let res = ResourceStorage::from_resources(vh::net::std_resources());
+        let c = i % combos;
+        let o = ((i / combos) % no as u64) as usize;
+        let exc = i / combos / no as u64 == 1;
+        let idx = nth_combination(c, np, k_same);
+        let rules: Vec<String> = idx.iter().filter_map(|&p| vh::alpha::cube_rule(p, o, exc)).collect();
+        if rules.len() < 2 {
+            return;
+        }
+        let mut refs: Vec<&str> = rules.iter().map(|s| s.as_str()).collect();
+        // an exception is only observable next to a blocking rule
+        if exc {
+            refs.push("/");
+        }
+        check_list(&refs, &cube_reqs, &res, l);
+    });
+    // (b) one pattern pair under two different option sets (grouping keys must keep them apart):
+    // 12 patterns that land in the wildcard bucket or share the `ads` bucket x all ordered pairs of option sets
+    let pats_b: Vec<usize> = vh::alpha::CUBE_PATTERNS.iter().enumerate().filter(|(_, p)| ["ads", "ads*", "*ads", "ads^", "^ads^", "ads.", "a", "/", "*", "", "=1", "/ads"].contains(p)).map(|(i, _)| i).collect();
+    let nb = pats_b.len() as u64;
+    ctx.par_range("cube: two option sets", nb * nb * (no * no) as u64, 8, |i, l| {
+        let res = ResourceStorage::from_resources(vh::net::std_resources());
+        let p1 = pats_b[(i % nb) as usize];
+        let p2 = pats_b[((i / nb) % nb) as usize];
+        let o1 = ((i / nb / nb) % no as u64) as usize;
+        let o2 = (i / nb / nb / no as u64) as usize;
+        if o1 >= o2 || p1 == p2 {
+            return;
+        }
+        let (a, b) = match (vh::alpha::cube_rule(p1, o1, false), vh::alpha::cube_rule(p2, o2, false)) {
+            (Some(a), Some(b)) => (a, b),
+            _ => return,
+        };
+        check_list(&[a.as_str(), b.as_str()], &cube_reqs, &res, l);
+    });
     ctx.finish(
         "model_checking",
-        "all ordered lists of <= k rules and all k'-element subsets of the rule alphabet (rules that share the wildcard / 'adv*' buckets and differ in one fusion-relevant attribute: pattern, exception, important, tag, type, party, anchors, regex, match-case, hostname, domain, redirect, csp, removeparam); four real blockers per list (built optimised, built unoptimised, unoptimised + optimize() twice, unoptimised + optimize() after every tag switch), under every tag subset, against the request universe; all verdict fields and the CSP set must agree; non-trivial = the unoptimised engine reports anything",
+        "all ordered lists of <= k rules and all k'-element subsets of the rule alphabet (rules that share the wildcard / 'adv*' buckets and differ in one fusion-relevant attribute: pattern, exception, important, tag, type, party, anchors, regex, match-case, hostname, domain, redirect, csp, removeparam); four real blockers per list (built optimised, built unoptimised, unoptimised + optimize() twice, unoptimised + optimize() after every tag switch), under every tag subset, against the request universe; all verdict fields and the CSP set must agree; plus the rule cube: all pairs (thorough: triples) of 53 pattern shapes under each of 19 option sets, as blocking rules and as exceptions, and 12 same-bucket patterns under every two different option sets; non-trivial = the unoptimised engine reports anything",
         &["differential: the unoptimised engine is the reference (its own correctness is C01's subject)"],
     )
 }
